@@ -35,6 +35,13 @@ pub unsafe extern "C" fn mlock(addr: *const libc::c_void, len: libc::size_t) -> 
     libc::syscall(libc::SYS_mlock, addr, len) as libc::c_int
 }
 
+/// `munlock` is forwarded to the real system call as well, so that a sanitizer runtime that turns
+/// mlock/munlock into no-ops (AddressSanitizer does) cannot desynchronise the two.
+#[no_mangle]
+pub unsafe extern "C" fn munlock(addr: *const libc::c_void, len: libc::size_t) -> libc::c_int {
+    libc::syscall(libc::SYS_munlock, addr, len) as libc::c_int
+}
+
 pub fn mlock_reset(fail_from: i64) {
     MLOCK_CALLS.store(0, Ordering::SeqCst);
     MLOCK_REFUSED.store(0, Ordering::SeqCst);
